@@ -39,7 +39,8 @@ COQ_DEPS = ["Corr/ImageCorr.vo"]
 COQ_TIMEOUT = 600
 
 MAX_CERT = 6
-RELS = ["additivity", "permutation", "zero_weight", "empty", "collection", "njobs", "skew", "nonneg_total"]
+RELS = ["additivity", "permutation", "zero_weight", "empty", "collection", "njobs", "skew", "nonneg_total",
+        "fit_transform"]
 
 
 def _cfg(rng, big):
@@ -91,11 +92,11 @@ def _integerise(rng, c, wcls):
 
 
 def generate(rng, tier):
-    n = 152 if tier == "quick" else 3000
+    n = 153 if tier == "quick" else 3000
     cases = []
     for i in range(n):
         rel = RELS[i % len(RELS)]
-        if rel == "njobs" and tier == "quick" and i >= 8 * 6:
+        if rel == "njobs" and tier == "quick" and i >= len(RELS) * 6:
             rel = rng.choice(["additivity", "permutation", "skew", "collection"])
         kcls, wcls, res, dyadic, base = _cfg(rng, big=(i % 3 != 0))
         small = (rel == "additivity" and i < len(RELS) * MAX_CERT)     # the instances certified inside Coq
@@ -147,6 +148,22 @@ def generate(rng, tier):
                 zs.append([b, (b + p) if skew else p])
             c["Z"] = zs
             c["zpos"] = [rng.randint(0, len(c["A"])) for _ in zs]
+        if rel == "fit_transform":
+            # birth-death diagrams with non-zero births, >= 2 points of distinct birth and persistence each
+            # (a 1-point diagram fits a zero-size image); half dyadic, half random doubles
+            c["skew"] = True
+            c["container"] = rng.choice(["f64", "f64", "list_float"])
+            c["pixel_size"] = rng.choice([0.5, 0.25, rng.uniform(0.2, 0.6)])
+            c["as_collection"] = (i // len(RELS)) % 2 == 1
+            for key in ("A", "B"):
+                pts = []
+                for kk in range(rng.randint(2, 5)):
+                    b = rng.uniform(0.5, 3.0) + 0.25 * kk
+                    p = rng.uniform(0.2, 2.0) + 0.125 * kk
+                    if dyadic:
+                        b, p = round(b * 16) / 16, round(p * 16) / 16
+                    pts.append([b, b + p])
+                c[key] = pts
         if rel in ("collection", "njobs"):
             c["C"] = _pts(rng, base, rng.randint(1, 4), skew, wcls, dyadic)
             if c["container"] in ("i64", "list_int"):
@@ -251,6 +268,24 @@ def impl_run(cases):
                 o["unchanged"] = o["unchanged"] and same(L[0], A0) and same(L[1], A0)
             elif rel == "nonneg_total":
                 o["AB"] = lst(T(AB, skew=sk))
+            elif rel == "fit_transform":
+                def bp_of(X):
+                    Y = X.copy(); Y[:, 1] = Y[:, 1] - Y[:, 0]; return Y
+                coll = bool(c.get("as_collection"))
+                BD = [A, B] if coll else A
+                BP = [bp_of(A), bp_of(B)] if coll else bp_of(A)
+
+                def imgs(r):
+                    return [lst(x) for x in r] if coll else [lst(r)]
+
+                def win(m):
+                    return [list(map(float, m.birth_range)), list(map(float, m.pers_range)), [int(x) for x in m.resolution]]
+                m1 = c04.make_imager(c); o["FT_BD"] = imgs(m1.fit_transform(conv(BD, cont), skew=True)); o["W_BD"] = win(m1)
+                m2 = c04.make_imager(c); o["FT_BP"] = imgs(m2.fit_transform(conv(BP, cont), skew=False)); o["W_BP"] = win(m2)
+                m3 = c04.make_imager(c); m3.fit(conv(BD, cont), skew=True)
+                o["F_T_BD"] = imgs(m3.transform(conv(BD, cont), skew=True)); o["W3"] = win(m3)
+                m4 = c04.make_imager(c); m4.fit(conv(BP, cont), skew=False)
+                o["F_T_BP"] = imgs(m4.transform(conv(BP, cont), skew=False)); o["W4"] = win(m4)
             if cont in INT and len(A):
                 # the same points as an integer-dtype container and as a float64 array
                 o["PRIM"] = lst(T(A, skew=sk))
@@ -380,6 +415,22 @@ def predicate(c, o):
         if not (tot <= tw + tol):
             return False, "total: pixel total %r exceeds total weight %r" % (tot, tw)
         return True, ""
+    if rel == "fit_transform":
+        ref = o["FT_BD"]
+        if any(x["shape"] != o["W_BD"][2] or 0 in x["shape"] for x in ref):
+            return False, "fit-transform: image shapes %s for fitted resolution %s" % ([x["shape"] for x in ref], o["W_BD"][2])
+        for name, w in (("W_BP", "fit_transform(BP, skew=False)"), ("W3", "fit(BD, skew=True)"), ("W4", "fit(BP, skew=False)")):
+            if o[name] != o["W_BD"]:
+                return False, "fit-transform: %s fitted window %s, fit_transform(BD, skew=True) fitted %s" % (w, o[name], o["W_BD"])
+        for name, w in (("FT_BP", "fit_transform(BP, skew=False)"), ("F_T_BD", "fit(BD, skew=True) then transform(BD, skew=True)"),
+                        ("F_T_BP", "fit(BP, skew=False) then transform(BP, skew=False)")):
+            if len(o[name]) != len(ref):
+                return False, "fit-transform: %s returned %d images for %d diagrams" % (w, len(o[name]), len(ref))
+            for k, (x, y) in enumerate(zip(ref, o[name])):
+                e = _close(x, y, tol)
+                if e:
+                    return False, "fit-transform: fit_transform(BD, skew=True) vs %s, diagram %d: %s" % (w, k, e)
+        return True, ""
     return False, "unknown relation %r" % rel
 
 
@@ -390,7 +441,7 @@ def nontrivial(c, o):
         return True
     key = {"additivity": "AB", "permutation": "AB", "zero_weight": "A", "collection": "A", "skew": "S",
            "nonneg_total": "AB"}.get(c["rel"])
-    x = o["J"]["None"][0] if c["rel"] == "njobs" else o.get(key)
+    x = o["J"]["None"][0] if c["rel"] == "njobs" else (o["FT_BD"][0] if c["rel"] == "fit_transform" else o.get(key))
     if x is None or max(abs(v) for v in x["v"]) <= 1e-9:
         return False
     if c["rel"] == "permutation":
